@@ -112,6 +112,9 @@ def body(run, a):
         for p in ps:
             for n in ((0, 1, bs - p, bs + 1) if run.tier == 'thorough' else (0, 1)):
                 stasks.append(('release-std', v, p, n))
+        if run.tier == 'quick':
+            # a buffered partial block followed by a slice of a block or more (the block count must follow the blocks actually compressed)
+            stasks += [('release-std', v, bs - 1, bs + 1), ('release-std', v, 1, bs)]
         for p in (0, bs - 8):
             stasks.append(('devchk-std', v, p, 1))
     for c in ['release-std', 'devchk-std']:
